@@ -982,6 +982,7 @@ func main() {
 	genCurl()
 	genPow()
 	genMisc()
+	genDeps()
 	if *expectOut != "" {
 		var b strings.Builder
 		b.WriteString("-- Snapshot of the source text the hand-written models were written from.\n")
